@@ -6,7 +6,7 @@ from . import common as C
 
 # number of input fields (after the line kind) per line kind; the rest of a line is
 # derived data (params view, oracle answers) and the observation
-INPUT_FIELDS = {"K": 1, "W": 4, "P": 5, "A": 3, "a": 1, "O": 3}
+INPUT_FIELDS = {"K": 1, "W": 4, "P": 5, "A": 3, "a": 1, "O": 3, "Ws": 5, "Ps": 6, "Wc": 7, "Pc": 8}
 
 
 def input_of(line):
@@ -30,6 +30,17 @@ def run(ctx, res, cmd, pid, nontrivial, kind_of):
             for c in rp.get("cases", []):
                 f.write(c["input"] + "\n")
     rc, out = C.run_pure(cmd, cases, ctx["seed"], ctx["tier"], replay=replay_in)
+    prog = cases + ".progress"
+    if rc != 0 and os.path.exists(prog):
+        # the Go runtime killed the harness (an unrecoverable fatal error) inside a concurrent case
+        with open(prog) as f:
+            inp = f.read().strip()
+        res.violation(pid.lower() + ":fatal:" + C.sha(inp),
+                      "the harness process died with a Go runtime fatal error while goroutines were calling one "
+                      "wrapped handler concurrently with these params",
+                      dict(kind="failing-input", cases=[dict(input=inp)], log=out[:1500] + "\n...\n" + out[-1500:],
+                           replay_cmd="./check %s --replay <this file>" % pid), found_input=True)
+        return None
     if rc != 0:
         res.violation("corr:harness-run", "the harness failed or crashed (exit %d)" % rc,
                       dict(kind="harness-failure", log=out[-3000:]), found_input=False)
@@ -59,6 +70,13 @@ def run(ctx, res, cmd, pid, nontrivial, kind_of):
     for m in mism:
         line = lines[m["line"] - 1]
         inp = input_of(line)
+        group = []
+        if line[:2] in ("Ws", "Ps"):   # a sequence: the replay is the group up to the failing request
+            gid = line.split("\t")[1].split(".")[0]
+            i = m["line"] - 2
+            while i >= 0 and lines[i][:2] == line[:2] and lines[i].split("\t")[1].split(".")[0] == gid:
+                group.insert(0, dict(input=input_of(lines[i])))
+                i -= 1
         exp, got = m["expected"], m["got"]
         if exp.startswith("ORACLEMISS"):
             key, what, found = "corr:oracle-miss", \
@@ -80,6 +98,6 @@ def run(ctx, res, cmd, pid, nontrivial, kind_of):
             break
         res.violation(key, what,
                       dict(kind="failing-input" if found else "broken-correspondence",
-                           cases=[dict(input=inp, expected=exp, got=got, line=line[:2000])],
+                           cases=group + [dict(input=inp, expected=exp, got=got, line=line[:2000])],
                            replay_cmd="./check %s --replay <this file>" % pid), found_input=found)
     return lines
